@@ -89,6 +89,10 @@ def ev_bool(e, sigma):
         return ev_bool(e[1], sigma) or ev_bool(e[2], sigma)
     if k == "bvar":
         return bool(sigma[e[1]])
+    if k == "veq":
+        return sigma[e[1]] == e[2]
+    if k == "vin":
+        return sigma[e[1]] in e[2]
     if k == "cmp":
         a, c = ev_int(e[2], sigma), ev_int(e[3], sigma)
         return {"Lt": a < c, "Le": a <= c, "Gt": a > c, "Ge": a >= c, "Eq": a == c, "Ne": a != c}[e[1]]
@@ -122,8 +126,9 @@ class Path:
 class Summary:
     """guarded transitions of one handler body"""
 
-    def __init__(self, P, E, hb, item_param=3, item_kind="item"):
+    def __init__(self, P, E, hb, item_param=3, item_kind="item", sink_param=None):
         self.P, self.E, self.b = P, E, hb
+        self.sink_param = sink_param
         self.item_param = item_param
         self.item_kind = item_kind
         self.cellinfo = {}       # gcell -> ("int", init) | ("cont", kind) | ("obj", what)
@@ -219,6 +224,16 @@ class Summary:
         return "%s|%s|%s|%s" % (norm(g[0]), g[1], g[2], "/".join(g[3]))
 
     # -- evaluation
+    def _item_variants(self):
+        """variant names of the item type when it is a crate enum (Material)"""
+        b = self.b
+        if self.item_param >= len(b.locals):
+            return None
+        a = self.P.adts.get(norm(ty_adt(b.locals[self.item_param]["ty"]) or ""))
+        if a is None or len(a["variants"]) < 2:
+            return None
+        return [v["name"] for v in a["variants"]]
+
     def _place_ty(self, place):
         b = self.b
         l = place[0]
@@ -249,6 +264,10 @@ class Summary:
                     i = int(e[1:].split(":")[0])
                     v = v[1][i] if i < len(v[1]) else TOP
                 elif isinstance(v, tuple) and v and v[0] == "opt" and e.startswith("@"):
+                    continue
+                elif isinstance(v, tuple) and v and v[0] == "item" and e.startswith("@"):
+                    v = ("itemfield", e[1:])
+                elif isinstance(v, tuple) and v and v[0] == "itemfield" and e.startswith("."):
                     continue
                 elif isinstance(v, tuple) and v and v[0] == "opt" and e.startswith("."):
                     v = v[2]
@@ -317,7 +336,9 @@ class Summary:
             return TOP
         if k == "cast":
             v = self.operand(p, rv["op"], True)
-            return v if is_int(v) else TOP
+            if is_int(v) or (isinstance(v, tuple) and v and v[0] in ("boxed", "item", "stored", "captured", "mapped", "adt")):
+                return v          # integer width change / unsizing coercion: the same value
+            return TOP
         if k == "binop":
             op = rv["op"]
             arith = op in ("Add", "Sub", "AddWithOverflow", "SubWithOverflow", "AddUnchecked", "SubUnchecked")
@@ -363,6 +384,8 @@ class Summary:
                 if rv.get("variant") == "Some":
                     return ("opt", TRUE, self.operand(p, rv["ops"][0]) if rv["ops"] else TOP)
                 return ("opt", FALSE, TOP)
+            if rv["ak"] == "adt" and norm(rv.get("def") or "") in self.P.adts:
+                return ("adt", rv.get("variant") or norm(rv["def"]).split("::")[-1], [self.operand(p, o) for o in rv["ops"]])
             return TOP
         if k == "discr":
             v = self.read_place(p, rv["p"])
@@ -370,6 +393,10 @@ class Summary:
                 return ("disc", v[1])
             if isinstance(v, tuple) and v and v[0] == "ord":
                 return ("orddisc", v[1], v[2])
+            if isinstance(v, tuple) and v and v[0] == "item":
+                names = self._item_variants()
+                if names:
+                    return ("vdisc", "in:variant", names)
             return TOP
         return TOP
 
@@ -440,6 +467,12 @@ class Summary:
             return "int"
         if isinstance(v, tuple) and v and v[0] == "tuple":
             return "tuple:" + ",".join(self._value_kind(p, x) or "other" for x in v[1])
+        if isinstance(v, tuple) and v and v[0] == "adt":
+            return "%s(%s)" % (v[1], ",".join(self._value_kind(p, x) or "other" for x in v[2]))
+        if isinstance(v, tuple) and v and v[0] == "itemfield":
+            return "item.%s" % v[1]
+        if isinstance(v, tuple) and v and v[0] == "boxed":
+            return "boxed(%s)" % (self._value_kind(p, v[1]) or "other")
         return None
 
     def _payload_kind(self, p, c, idx):
@@ -702,6 +735,30 @@ class Summary:
                     "std::iter::DoubleEndedIterator::rfind"):
             p.trace.append(("reversed",))
             return done(p)
+        if path in ("std::boxed::Box::new", "std::sync::Arc::new", "std::rc::Rc::new") and c.args:
+            v_ = self.operand(p, c.args[0])
+            if self._value_kind(p, v_) is not None:
+                return done(p, v_ if (isinstance(v_, tuple) and v_ and v_[0] == "boxed") else ("boxed", v_))
+            return done(p)
+        if a in ("obs_next", "obs_error", "obs_complete") and self.sink_param is not None and c.args and all(
+                t_[0] == "param" and t_[1] == self.sink_param for t_ in b.operand_prov(c.args[0])):
+            # the subscriber itself (creation functions emit on it directly)
+            if a == "obs_next":
+                p.trace.append(("sink_next", self._payload_kind(p, c, 1)))
+            else:
+                p.trace.append(("sink_error",) if a == "obs_error" else ("sink_complete",))
+            return done(p)
+        if a == "subscribe" and self.sink_param is not None:
+            p.trace.append(("subscribe", self._payload_kind(p, c, 0)))
+            return done(p)
+        if c.trait in ("std::ops::Fn", "std::ops::FnMut", "std::ops::FnOnce") and c.args and dl is not None \
+                and b.locals[dl]["ty"].get("s") == "bool":
+            # the user's predicate invoked directly (a closure wrapping it)
+            p.trace.append(("user_fn", "args"))
+            return done(p, ("bvar", "in:pred"))
+        if c.trait in ("std::ops::Fn", "std::ops::FnMut", "std::ops::FnOnce") and self.sink_param is not None and c.args:
+            p.trace.append(("user_fn", "()"))
+            return done(p, ("mapped",))
         if a in ("obs_next", "obs_error", "obs_complete"):
             # a side observer built from the user's callbacks (tap)
             p.trace.append(("user_fn", self._payload_kind(p, c, 1) if a != "obs_complete" else "?"))
@@ -736,7 +793,8 @@ class Summary:
                     if norm(ty_adt(ty) or "") in ("std::vec::Vec", "std::collections::VecDeque"):
                         return done(p, ("bufcopy",))
             if isinstance(v, tuple) and v and v[0] in ("opt", "item", "front", "back", "bufcopy", "window", "int", "tuple", "captured",
-                                                       "stored", "mapped", "error", "bvar", "bconst", "combined"):
+                                                       "stored", "mapped", "error", "bvar", "bconst", "combined", "adt", "itemfield",
+                                                       "boxed"):
                 if v[0] == "opt" and path.endswith("unwrap"):
                     return done(p, v[2])
                 return done(p, v)
@@ -810,6 +868,19 @@ class Summary:
                 d = self.operand(p, t["discr"])
                 targets = t["targets"]
                 other = t["otherwise"]
+                if isinstance(d, tuple) and d and d[0] == "vdisc":
+                    taken = []
+                    for v_, bbx in targets:
+                        q = p.fork()
+                        q.pc.append(("veq", d[1], v_))
+                        taken.append(v_)
+                        work.append((q, bbx))
+                    rest_vals = [i for i in range(len(d[2])) if i not in taken]
+                    if rest_vals:
+                        q = p.fork()
+                        q.pc.append(("vin", d[1], tuple(rest_vals)))
+                        work.append((q, other))
+                    continue
                 if isinstance(d, tuple) and d and d[0] == "orddisc":
                     a_, c_ = d[1], d[2]
                     arms = {}
@@ -876,7 +947,7 @@ class Summary:
                 syms.add(v[1])
 
         def walk_b(e):
-            if e[0] == "bvar":
+            if e[0] in ("bvar", "veq", "vin"):
                 syms.add(e[1])
             elif e[0] == "cmp":
                 walk_i(e[2]), walk_i(e[3])
@@ -924,7 +995,7 @@ class Summary:
 
 
 # ---- operator tables ------------------------------------------------------------------------
-ALPHABET = {"user_fn", "remember", "combine", "reversed", "sink_next", "sink_complete", "sink_complete_force", "sink_error", "abort", "finalize", "push_back", "push_front",
+ALPHABET = {"user_fn", "remember", "combine", "reversed", "subscribe", "sink_next", "sink_complete", "sink_complete_force", "sink_error", "abort", "finalize", "push_back", "push_front",
             "pop_front", "pop_back", "clear", "take_all", "window_next", "window_complete", "window_error", "store",
             "panic", "loop", "opaque", "cont_replace", "cont_truncate", "cont_drain", "cont_retain", "cont_remove",
             "cont_insert", "cont_append", "cont_extend", "cont_split_off", "cont_resize", "cont_swap_remove"}
@@ -1226,6 +1297,8 @@ def _show_i(v):
 
 
 def _show_b(e):
+    if e[0] in ("veq", "vin"):
+        return "variant %s %s" % ("==" if e[0] == "veq" else "in", e[2])
     if e[0] == "bvar":
         return e[1].split("|")[0].replace("in:", "").split(":")[0] if e[1].startswith("in:") else ("flag" if e[1].startswith("f:") else "has_value")
     if e[0] == "bconst":
